@@ -56,6 +56,23 @@ def main():
     ctx.tick('props compiled')
     mod.run(ctx)
     ctx.tick('run done')
+    # a theorem / translator obligation / correspondence no longer checks but no concrete failing input
+    # was found: second, larger search (the PRNG has advanced, so these are new cases; checks that
+    # honour ctx.search_factor also widen their generators) before reporting no-failing-input-found
+    if ctx.broken and not any(h for _, h, _ in ctx.violations) and not os.environ.get("VERIF_NO_SECOND_SEARCH"):
+        lib.log(f"[{a.pid}] broken obligation without failing input -> second search")
+        ctx.search_factor = 5
+        ctx.second_search = True
+        n_broken = len(ctx.broken)
+        try:
+            mod.run(ctx)
+        except SystemExit:
+            raise
+        except Exception as e:  # noqa
+            ctx.notes.append("second search aborted: " + repr(e))
+        ctx.broken = list(dict.fromkeys(ctx.broken))[:max(n_broken, 6)]
+        ctx.cov["second_search"] = True
+        ctx.tick('second search done')
     ctx.finish()
 
 
